@@ -11,7 +11,7 @@ def main():
     for rel in args:
         spec = load_spec(rel)
         try:
-            r = discharge(spec, os.path.join(VERIF, '.work', 'dev'), keep='-k' in sys.argv)
+            r = discharge(spec, os.path.join(VERIF, '.work', os.environ.get('VERIF_DEVDIR', 'dev')), keep='-k' in sys.argv)
         except ExtractionBreak as e:
             print("EXTRACTION BREAK", rel, e); rc = 2; continue
         print("==", rel, r["status"], r.get("tool_s"))
@@ -21,7 +21,7 @@ def main():
         fails = [o for o in obs if o["status"] != "SUCCESS"]
         print("  obligations:", len(obs), "failed:", len(fails))
         for o in fails:
-            print("   FAIL", o["id"], "[%s]" % o["label"], o["kind"], "line", o["line"], "-", o["description"][:100])
+            print("   %s" % o["status"][:4], o["id"], "[%s]" % o["label"], o["kind"], "line", o["line"], "-", o["description"][:100])
             if verbose and "trace" in o:
                 for k, v in list(o["trace"].items())[-40:]:
                     print("        ", k, "=", v)
